@@ -123,8 +123,8 @@ Proof. vm_compute. split; reflexivity. Qed.
    connection shows the scrubbing on the first and on a later request *)
 Definition ex_req (path : string) (extra : list bytes) : request :=
   mkRequest (bs "GET") (Some (bs "h.example")) (Some 80%Z) (Some (bytes_of_string path)) HTTP_1_1
-            (headers_of_lines ([bs "Host: h.example"] ++ extra)) None false.
-Definition ex_cf : config := mkConfig (bs "proxy.py v0") [].
+            (headers_of_lines ([bs "Host: h.example"] ++ extra)) None false [].
+Definition ex_cf : config := mkConfig (bs "proxy.py v0") [] false.
 Definition ex_creds : list bytes := [bs "Proxy-Authorization: Basic dXNlcjpwYXNz"; bs "Proxy-Connection: keep-alive"].
 
 Example C08_nonvacuous_fail :
